@@ -12,4 +12,4 @@ def run(P, R, L):
     R.clause("GRD-11", "a log re-opened for appending continues at block offset len % BLOCK_SIZE for every non-empty file; writer and reader "
              "use the same trailer test")
     K.grd11_reopen_offset(P, R, L)
-    R.not_decided += ["all block-boundary arithmetic: header 7, block 32768, trailer padding, `len % 32768` on reopen (value level)"]
+    R.not_decided += ["block-boundary arithmetic beyond the guards above: fragment sizes, trailer padding width, offset bookkeeping after each emit (value level)"]
